@@ -345,6 +345,70 @@ PBT_PROPERTY(barrier_mutex) { barrier_scenario<tlx::ThreadBarrierMutex>(src, "Th
 PBT_PROPERTY(barrier_spin) { barrier_scenario<tlx::ThreadBarrierSpin>(src, "ThreadBarrierSpin"); }
 
 // ---------------------------------------------------------------------------------------------
+// Scale classes (own targets, so the mappings of semaphore / barrier_* stay valid)
+
+//! barriers with many threads and many generations (narrow counters, parity tricks)
+PBT_PROPERTY(barrier_scale) {
+    bool spin = src.boolean();
+    bool use_yield = src.boolean();
+    int cls = (int)src.range(0, 2);
+    int n, G;
+    if (cls == 0) n = (int)src.range(5, 12), G = (int)src.range(1, 6);           // many threads
+    else if (cls == 1) n = (int)src.range(2, 3), G = (int)src.range(250, 600);   // many generations (> 255, > 512)
+    else n = (int)src.range(4, 8), G = (int)src.range(20, 70);
+    pbt::label(spin ? "spin" : "mutex");
+    pbt::label(cls == 0 ? "threads>=5" : cls == 1 ? "generations>=250" : "mid");
+    PBT_LOG((spin ? "ThreadBarrierSpin" : "ThreadBarrierMutex") << " n=" << n << " generations=" << G << " wait_yield=" << use_yield << "\n");
+    vsched::Options opt;
+    opt.max_steps = 3000000;
+    vsched::Run run(src, opt);
+    if (spin) barrier_execute<tlx::ThreadBarrierSpin>(n, G, use_yield, true, 0);
+    else barrier_execute<tlx::ThreadBarrierMutex>(n, G, use_yield, true, 0);
+    if (bar.overlap) pbt::nontrivial();
+}
+
+//! semaphore with many threads and large token counts: every delta/slack/initial value of a small
+//! script is multiplied by a factor around the limits of narrow integer types
+PBT_PROPERTY(semaphore_scale) {
+    static const size_t FACT[] = {1, 255, 256, 65535, 65536, (size_t)1 << 31, ((size_t)1 << 32) + 1, (size_t)1 << 40};
+    size_t F = FACT[src.range(0, 7)];
+    int nthreads = (int)src.range(2, 8);
+    bool waiters_first = src.chance(150);
+    size_t initial = (size_t)src.range(0, 3) * F;
+    std::vector<std::vector<Op>> scripts((size_t)nthreads);
+    size_t total_sig = initial, total_req = 0;
+    for (auto& sc : scripts) {
+        int nops = (int)src.range(1, 3);
+        for (int i = 0; i < nops; ++i) {
+            Op op;
+            op.k = (i == 0 && waiters_first) ? WAIT : (OpKind)src.weighted({1, 4, 4, 2});
+            op.delta = (size_t)src.range(1, 3) * F;
+            op.slack = (op.k == WAIT || op.k == TRY) ? (size_t)src.weighted({4, 1, 1}) * F : 0;
+            if (op.k == SIGNAL1) op.delta = 1;
+            if (op.k == SIGNAL1 || op.k == SIGNALN) total_sig += op.delta;
+            if (op.k == WAIT || op.k == TRY) total_req += op.delta;
+            sc.push_back(op);
+        }
+    }
+    // top up with ONE signal(n) by an extra thread script so that the scenario is satisfiable in total
+    size_t need = total_req + 2 * F > total_sig ? total_req + 2 * F - total_sig : 0;
+    if (need) scripts.push_back({Op{SIGNALN, need, 0}});
+    pbt::label(F == 1 ? "factor=1" : F < 65536 ? "factor<2^16" : F < ((size_t)1 << 32) ? "factor<2^32" : "factor>=2^32");
+    pbt::label(nthreads >= 5 ? "threads>=5" : "threads<=4");
+    if (pbt::verbose()) {
+        PBT_LOG("semaphore_scale factor=" << F << " initial=" << initial << "\n");
+        for (size_t t = 0; t < scripts.size(); ++t) {
+            PBT_LOG(" T" << t + 1 << ":");
+            for (auto& op : scripts[t]) PBT_LOG(" " << opname(op.k) << "(" << op.delta << "," << op.slack << ")");
+            PBT_LOG("\n");
+        }
+    }
+    vsched::Run run(src);
+    sem_execute(initial, scripts, std::vector<int>(), /*exploring=*/false);
+    if (sem.saw_two_blocked_different || F > 1) pbt::nontrivial();
+}
+
+// ---------------------------------------------------------------------------------------------
 // Bounded-exhaustive exploration (thorough tier): every schedule with at most `bound` preemptions
 // of small fixed templates. Semaphore templates are satisfiable in every schedule, so any rest
 // state with a blocked thread is a violation.
